@@ -47,6 +47,7 @@ class table_C_B_D_T_(E_B_D_T_.table_E_B_D_T_):
 def _removeUnsupportedForColor(dataFunctions):
     dataFunctions = dict(dataFunctions)
     del dataFunctions["row"]
+    del dataFunctions["bitwise"]
     return dataFunctions
 
 
